@@ -102,6 +102,32 @@ def run_one(m: dict, tier: str = "quick") -> dict:
         shutil.rmtree(scratch, ignore_errors=True)
 
 
+def main_benign(argv: list[str]) -> int:
+    """The reverse experiment: behaviour-preserving changes (refactorings, different buffer sizes and
+    constants) must NOT raise an alarm.  ``./check benign [substr ...]``"""
+    bdir = os.path.join(VERIF, "benign")
+    ms = []
+    for fn in sorted(os.listdir(bdir)):
+        if fn.endswith(".patch") and (not argv or any(a in fn for a in argv)):
+            props = []
+            with open(os.path.join(bdir, fn)) as f:
+                for line in f:
+                    if line.startswith("# property:"):
+                        props = line.split(":", 1)[1].split()
+            ms.append({"name": "benign/" + fn[:-6], "patch": os.path.join(bdir, fn), "properties": props, "reverse": False})
+    bad = 0
+    for m in ms:
+        r = run_one(m, "quick")
+        quiet = r["status"] == "SURVIVED"
+        print(f"{'QUIET' if quiet else 'FALSE-ALARM' if r['status'] == 'CAUGHT' else r['status']:13s} {m['name']:50s} {','.join(m['properties'])}")
+        if not quiet:
+            bad += 1
+            print("    " + r["detail"].replace("\n", "\n    "))
+        sys.stdout.flush()
+    print(f"{len(ms) - bad}/{len(ms)} quiet")
+    return 0 if bad == 0 else 1
+
+
 def main(argv: list[str]) -> int:
     tier = "quick"
     if argv and argv[0] in ("quick", "thorough"):
@@ -110,12 +136,42 @@ def main(argv: list[str]) -> int:
     if argv:
         ms = [m for m in ms if any(a in m["name"] or a in m["properties"] for a in argv)]
     bad = 0
+    rows = []
+    full = not argv
     for m in ms:
         r = run_one(m, tier)
         print(f"{r['status']:13s} {r['name']:55s} {','.join(r.get('caught_by', []))}")
         if r["status"] != "CAUGHT":
             bad += 1
             print("    " + r["detail"].replace("\n", "\n    "))
+        rows.append((m, r))
         sys.stdout.flush()
     print(f"{len(ms) - bad}/{len(ms)} caught")
+    if full:
+        write_table(rows, tier)
     return 0 if bad == 0 else 1
+
+
+def write_table(rows, tier: str) -> None:
+    """Record which check catches which change (DESIGN.md section 9.4)."""
+    lines = [
+        "# Sensitivity: which check catches which change",
+        "",
+        f"Generated by `./check sensitivity` ({tier} tier, VERIF_SEED={os.environ.get('VERIF_SEED', '0')}). Every change is applied to a scratch copy of `/repo/src`;",
+        "the targeted property's check must exit 1 with a `VIOLATION` line. `mutants/` = hand-written mutants, `seeded/` = changes written by",
+        "independent sub-agents that saw only the property text (each compiles and passes the unedited test suite), `revert-fix/` = one `fix:` commit reversed.",
+        "",
+        "| change | targets | result | first violation class reported |",
+        "|---|---|---|---|",
+    ]
+    for m, r in rows:
+        first = ""
+        for ln in r.get("detail", "").splitlines():
+            if "violation class=" in ln:
+                first = ln.split("violation class=", 1)[1].split(" cases=", 1)[0]
+                break
+        lines.append(f"| `{m['name']}` | {', '.join(m['properties'])} | {r['status']} ({', '.join(r.get('caught_by', []))}) | `{first}` |")
+    caught = sum(1 for _, r in rows if r["status"] == "CAUGHT")
+    lines += ["", f"{caught}/{len(rows)} caught."]
+    with open(os.path.join(VERIF, "SENSITIVITY.md"), "w") as f:
+        f.write("\n".join(lines) + "\n")
